@@ -96,7 +96,8 @@ fn gen_c05(ctx: &GenCtx, i: u64) -> Option<Run> {
     };
     let assertion = if proto.has_assertion() { gen_opt_text(&mut r).map(|f| f.chars().take(10).collect::<String>()) } else { None };
     let raw = layer == Layer::Core && r.chance(1, 3);
-    let msg = if raw { ascii!(r, *r.pick(&[0usize, 0, 1, 2, 16])) } else { ascii!(r, r.usize(40)) };
+    let big = !matches!(proto, Proto::V3P | Proto::V1P) && r.chance(1, 10);
+    let msg = if raw { ascii!(r, *r.pick(&[0usize, 0, 1, 2, 16])) } else if big { ascii!(r, *r.pick(&[4000usize, 4096, 5000, 8192, 9000, 70_000])) } else { ascii!(r, r.usize(40)) };
     let opts = IssueOpts { proto, layer, key, footer: footer.clone(), assertion, now, message: msg.clone(), json_payload: if raw { None } else { Some(json!({"data": msg})) }, extra_claims: vec![] };
     let mut t = issue(&mut rb, &mut r, opts);
     // builder layers: sometimes it is the 2nd or 3rd token of the same builder that travels
@@ -211,7 +212,8 @@ fn gen_c06(ctx: &GenCtx, i: u64) -> Option<Run> {
             };
             let footer = gen_opt_text(&mut r).map(|f| f.chars().take(10).collect::<String>());
             let raw = layer == Layer::Core && r.chance(1, 3);
-            let msg = if raw { ascii!(r, *r.pick(&[0usize, 0, 1, 2, 16])) } else { ascii!(r, r.usize(40)) };
+            let big = !slow && r.chance(1, 10);
+            let msg = if raw { ascii!(r, *r.pick(&[0usize, 0, 1, 2, 16])) } else if big { ascii!(r, *r.pick(&[4000usize, 4096, 5000, 8192, 9000, 70_000])) } else { ascii!(r, r.usize(40)) };
             let opts = IssueOpts { proto, layer, key, footer: footer.clone(), assertion: assertion.clone(), now, message: msg.clone(), json_payload: if raw { None } else { Some(json!({"data": msg})) }, extra_claims: vec![] };
             let mut t = issue(&mut rb, &mut r, opts);
             if t.builder.is_some() && r.chance(1, 3) {
@@ -307,7 +309,7 @@ fn gen_c06(ctx: &GenCtx, i: u64) -> Option<Run> {
             for (n, l) in lens.iter().enumerate() {
                 let a = if *l == 0 { if n % 2 == 0 { None } else { Some(String::new()) } } else { Some(alnum!(r, *l)) };
                 let out = rb.msg();
-                rb.push(Op::CoreIssue { proto, key, nonce_hex: nonce.clone(), payload: msg.clone(), footer: footer.clone(), assertion: a.clone(), out });
+                rb.push(Op::CoreIssue { proto, key, nonce_hex: nonce.clone(), payload: msg.clone(), footer: footer.clone(), assertion: a.clone(), out, order: 0 });
                 // and it verifies with the same assertion
                 let v = rb.verifier(VerifierSpec { proto, layer: Layer::Core, key, footer: footer.clone(), assertion: a, default_validators: false, expect: vec![], expect_via_extend: false, validators: vec![], hash_seed: 0 });
                 rb.deliver(out, v, now);
